@@ -379,7 +379,11 @@ class SynthBase(testtools.TestCase):
             elif op == "addCleanup":
                 self.addCleanup(self._exec, a)
             elif op == "addDetail":
-                self.addDetail(name_str(a, b), lazy_content(env, "user:%s-%d" % (a, b)))
+                if a == "empty":
+                    # a detail whose content yields no bytes at all must still arrive (under its name)
+                    self.addDetail(name_str(a, b), ttcontent.Content(ContentType("application", "octet-stream"), lambda: []))
+                else:
+                    self.addDetail(name_str(a, b), lazy_content(env, "user:%s-%d" % (a, b)))
             elif op == "expect":
                 self.expectThat("valueé", SynthMatcher(a))
             elif op == "patch":
